@@ -115,6 +115,15 @@ def check_vec(case, ctx):
             if v.size == 3:
                 ctx.ok("3-vector gives a pure quaternion", q[0] == 0.0, route=r)
             ctx.ok("object reports itself as a versor", bool(out.value.is_versor()), route=r)
+    if v.size == 4:      # scalar-last storage: the stored quaternion is the unit vector of the given components, whatever their order means
+        out = call(lambda: ahrs.Quaternion(v.copy(), order="S"))
+        if ctx.returned(out, clause="no-exception[order=S]", route=r):
+            qs = as_real_array(ctx, np.asarray(out.value), (4,), route=r, what="quaternion")
+            if qs is not None:
+                unit_clause(ctx, r, qs)
+                full = v / np.abs(v).max()
+                ctx.le("order='S': stored components are the normalised given ones", np.abs(qs - full / np.linalg.norm(full)).max(), 1e-14, route=r)
+                ctx.le("order='S': w is the last stored component", abs(float(out.value.w) - qs[3]) + np.abs(np.asarray(out.value.v, float) - qs[:3]).max(), 0.0, route=r)
     for inp, nm in ((v.tolist(), "list"), (tuple(v.tolist()), "tuple")):
         out = call(lambda: np.asarray(ahrs.Quaternion(inp)))
         if ctx.returned(out, route=r):
